@@ -233,6 +233,18 @@ def run(ctx):
             ctx.fail(f"{kind}: the library extracts different values (or consumes {tell} of {len(m['enc'])} bytes) from layout-conformant bytes", rep, ident=f"{kind} layout (read)")
         if m["dec_abs"] != got:
             ctx.diff("blk.dec", f"{kind}: model decode differs from real decode", rep)
+    # the same object written again after in-place edits: the bytes are those of the layout for the object as it is NOW
+    from sessions.c01 import life_cycles
+
+    def layout_judge(ctx, kind, v, opts, r, m):
+        rep = dict(kind=kind, v=v, **opts)
+        if "enc" not in r:
+            ctx.fail(f"{kind}: edited block cannot be encoded: {r.get('exc', '')[:120]}", rep, ident=f"{kind} stage={r['stage']}")
+        elif r["enc"] != m["enc"]:
+            i = next((i for i, (a, b) in enumerate(zip(m["enc"], r["enc"])) if a != b), min(len(m["enc"]), len(r["enc"])))
+            ctx.fail(f"{kind}: bytes written after in-place edits ({'; '.join(opts['life_cycle']['edits'])}) differ from the layout-driven encoder at byte {i}",
+                     rep, ident=f"{kind} layout (write) after in-place edit")
+    life_cycles(ctx, layout_judge, ctx.n(250, 5000))
     for tz in TZS:
         with local_tz(tz):
             entries_and_headers(ctx, tz, share=len(TZS))
